@@ -188,6 +188,22 @@ def check(prog, rep, tier):
             break
     if ok:
         rep.ok("C14.counting-bloom", f"{ctx}.remove_alt: total -= the amount removed from the cells")
+    # ---------------------------------------------------------------- Bloom loaders: the count a load leaves is the stored one
+    from .C05 import loaded_obj, reader_paths
+    for cn_ in ("BloomFilter", "CountingBloomFilter"):
+        for rn in ("_load", "_load_hex", "frombytes"):
+            rf_, rps = reader_paths(prog, cn_, rn)
+            okld = bool(rps)
+            for p in rps:
+                v = p.fields.get((loaded_obj(rf_, p), "_els_added"))
+                if v is None or not any(n[0] == "unp" for n in walk(v)):
+                    rep.bad("C14.bloom", f"{cn_}.{rn}", f"_els_added = {nshow(v) if v else 'unassigned'}",
+                            f"after {rn} the element count is {nshow(v) if v else 'not set'}, not the count stored in the input: elements_added no longer tracks the additions "
+                            "the loaded filter has seen (and a counting filter's removals drive it negative)", rf_.where())
+                    okld = False
+                    break
+            if okld:
+                rep.ok("C14.bloom", f"{cn_}.{rn}: elements_added restored from the stored count")
     # ---------------------------------------------------------------- count-min
     T = "_CountMinSketch__elements_added"
     for fn, sign in (("add_alt", "+"), ("remove_alt", "-")):
